@@ -1,19 +1,9 @@
 import JaqalProofs.Lemmas.PyEq
-/-! Symmetry of the model of Python `==` on circuits over one fundamental register. -/
+import Batteries.Data.List.Perm
+/-! Symmetry of the model of Python `==`: unconditional on values and statements; on circuits it needs only that
+the lists representing dictionaries have distinct keys. -/
 namespace Jaqal.PyEq
 open Jaqal
-
-/-- Values as the parser builds them in a circuit whose (only) fundamental register is called `f`:
-every fundamental register below is called `f`, no alias and no named qubit is called `f`, parameters are
-untyped (macro parameters), constants hold numbers. -/
-def over (f : String) : Val → Bool
-  | .const _ v => constKind v != .none && over f v
-  | .param _ k => k == .none
-  | .qubit n src idx => n != f && over f src && over f idx
-  | .regF n size => n == f && over f size
-  | .regA n src => n != f && over f src
-  | .regS n src a b c => n != f && over f src && over f a && over f b && over f c
-  | _ => true
 
 theorem beq_symm' {α} [BEq α] [LawfulBEq α] (a b : α) : (a == b) = (b == a) := by
   by_cases h : a = b
@@ -26,320 +16,70 @@ theorem veq_symm (x y : Num) : Num.veq x y = Num.veq y x := by
   · exact beq_symm' _ _
   · rename_i a b; rw [beq_symm' a b]
 
-/-- `a == b` and `b == a` both return, and return the same -/
-def Sym (a b : Val) : Prop := ∃ r, valEq a b = .ok r ∧ valEq b a = .ok r
-
-theorem Sym.false_of {a b : Val} (h1 : valEq a b = .ok false) (h2 : valEq b a = .ok false) : Sym a b := ⟨false, h1, h2⟩
-
-theorem valEq_regF_of_noSize {n sz b} (h : sizeAttr b = .ok none) : valEq (.regF n sz) b = .ok false := by
-  simp only [valEq]
-  split
-  · rfl
-  · split
-    · simp [h, bind, Except.bind, pure, Except.pure]
-    · rfl
-
-theorem sizeAttr_noReg {b : Val}
-    (h : match b with | .regF .. => False | .regA .. => False | .regS .. => False | _ => True) :
-    sizeAttr b = .ok none := by
-  cases b <;> first | exact h.elim | simp [sizeAttr, Resolve.resolveSize, pure, Except.pure]
-
-theorem valEq_regF_ne {n sz b n'} (h : b.name? = some n') (hne : n ≠ n') : valEq (.regF n sz) b = .ok false := by
-  simp only [valEq, h]
-  split
-  · rename_i e; exact absurd (by simpa using e) hne
-  · rfl
-
-/-- both directions are `False` by unfolding -/
-macro "ff" : tactic => `(tactic|
-  exact Sym.false_of
-    (by first | exact valEq_regF_of_noSize (sizeAttr_noReg trivial) | simp [valEq, pure, Except.pure])
-    (by first | exact valEq_regF_of_noSize (sizeAttr_noReg trivial) | simp [valEq, pure, Except.pure]))
-
-theorem valEq_symm (f : String) : ∀ a b : Val, over f a = true → over f b = true → Sym a b := by
+/-- `a == b` is `b == a` for ALL values of the model -/
+theorem valEq_symm : ∀ a b : Val, valEq a b = valEq b a := by
   intro a
   induction a with
-  | int x =>
-    intro b _ _
-    cases b <;> simp [Sym, valEq, pure, Except.pure, veq_symm, Val.name?]
-  | flt x =>
-    intro b _ _
-    cases b <;> simp [Sym, valEq, pure, Except.pure, veq_symm, Val.name?]
-  | none =>
-    intro b _ _
-    cases b <;> simp [Sym, valEq, pure, Except.pure, Val.name?]
-  | str s =>
-    intro b _ _
-    cases b <;> simp [Sym, valEq, pure, Except.pure, Val.name?, beq_symm' s]
-  | param n k =>
-    intro b ha hb
-    cases b <;> simp [Sym, valEq, pure, Except.pure, Val.name?, sizeAttr, Resolve.resolveSize, bind, Except.bind]
-    · simp only [over, Bool.and_eq_true, bne_iff_ne, beq_iff_eq] at ha hb
-      intro _ h; exact hb.1 (h ▸ ha)
-    · rw [beq_symm' n, beq_symm' k]
-  | const n v ih =>
-    intro b ha hb
-    simp only [over, Bool.and_eq_true, bne_iff_ne] at ha
-    cases b with
-    | const n' v' =>
-      simp only [over, Bool.and_eq_true, bne_iff_ne] at hb
-      by_cases hn : n = n'
-      · subst hn
-        obtain ⟨r, h1, h2⟩ := ih v' ha.2 hb.2
-        exact ⟨r, by simp [valEq, h1], by simp [valEq, h2]⟩
-      · exact Sym.false_of (by simp [valEq, hn, pure, Except.pure]) (by simp [valEq, Ne.symm hn, pure, Except.pure])
-    | param n' k' =>
-      simp only [over, beq_iff_eq] at hb
-      refine Sym.false_of (by simp [valEq, pure, Except.pure]) ?_
-      simp only [valEq, pure, Except.pure, Except.ok.injEq, Bool.and_eq_false_imp, beq_iff_eq, beq_eq_false_iff_ne]
-      intro _ h; exact ha.1 (h ▸ hb)
-    | _ => ff
-  | qubit n src idx ih1 ih2 =>
-    intro b ha hb
-    simp only [over, Bool.and_eq_true, bne_iff_ne] at ha
-    cases b with
-    | qubit n' src' idx' =>
-      simp only [over, Bool.and_eq_true, bne_iff_ne] at hb
-      by_cases hn : n = n'
-      · subst hn
-        obtain ⟨r, h1, h2⟩ := ih2 idx' ha.2 hb.2
-        cases hs : src.name? <;> cases hs' : src'.name?
-        · exact Sym.false_of (by simp [valEq, hs, hs', pure, Except.pure]) (by simp [valEq, hs, hs', pure, Except.pure])
-        · exact Sym.false_of (by simp [valEq, hs, hs', pure, Except.pure]) (by simp [valEq, hs, hs', pure, Except.pure])
-        · exact Sym.false_of (by simp [valEq, hs, hs', pure, Except.pure]) (by simp [valEq, hs, hs', pure, Except.pure])
-        · rename_i s s'
-          by_cases hss : s = s'
-          · subst hss
-            exact ⟨r, by simp [valEq, hs, hs', h1], by simp [valEq, hs, hs', h2]⟩
-          · exact Sym.false_of (by simp [valEq, hs, hs', hss, pure, Except.pure])
-              (by simp [valEq, hs, hs', Ne.symm hss, pure, Except.pure])
-      · exact Sym.false_of (by simp [valEq, hn, pure, Except.pure]) (by simp [valEq, Ne.symm hn, pure, Except.pure])
-    | regA n' src' =>
-      simp only [over, Bool.and_eq_true, bne_iff_ne] at hb
-      refine Sym.false_of (by simp [valEq, pure, Except.pure]) ?_
-      obtain ⟨r, _, h2⟩ := ih1 src' ha.1.2 hb.2
-      by_cases hn : n' = n <;> simp [valEq, hn, h2, pure, Except.pure, bind, Except.bind]
-    | regS n' src' a' b' c' =>
-      simp only [over, Bool.and_eq_true, bne_iff_ne] at hb
-      refine Sym.false_of (by simp [valEq, pure, Except.pure]) ?_
-      obtain ⟨r, _, h2⟩ := ih1 src' ha.1.2 hb.1.1.1.2
-      by_cases hn : n' = n <;> simp [valEq, hn, h2, pure, Except.pure, bind, Except.bind]
-    | _ => ff
-  | regF n size ih =>
-    intro b ha hb
-    simp only [over, Bool.and_eq_true, beq_iff_eq] at ha
-    obtain ⟨rfl, ha2⟩ := ha
-    cases b with
-    | regF n' size' =>
-      simp only [over, Bool.and_eq_true, beq_iff_eq] at hb
-      obtain ⟨rfl, hb2⟩ := hb
-      obtain ⟨r, h1, h2⟩ := ih size' ha2 hb2
-      exact ⟨r, by simp [valEq, Val.name?, sizeAttr, Resolve.resolveSize, pure, Except.pure, bind, Except.bind, h1],
-        by simp [valEq, Val.name?, sizeAttr, Resolve.resolveSize, pure, Except.pure, bind, Except.bind, h2]⟩
-    | regA n' src' =>
-      simp only [over, Bool.and_eq_true, bne_iff_ne] at hb
-      exact Sym.false_of (valEq_regF_ne rfl (Ne.symm hb.1)) (by simp [valEq, hb.1, pure, Except.pure])
-    | regS n' src' a' b' c' =>
-      simp only [over, Bool.and_eq_true, bne_iff_ne] at hb
-      exact Sym.false_of (valEq_regF_ne rfl (Ne.symm hb.1.1.1.1)) (by simp [valEq, hb.1.1.1.1, pure, Except.pure])
-    | _ => ff
-  | regA n src ih =>
-    intro b ha hb
-    simp only [over, Bool.and_eq_true, bne_iff_ne] at ha
-    cases b with
-    | regF n' size' =>
-      simp only [over, Bool.and_eq_true, beq_iff_eq] at hb
-      obtain ⟨rfl, _⟩ := hb
-      exact Sym.false_of (by simp [valEq, ha.1, pure, Except.pure]) (valEq_regF_ne rfl (Ne.symm ha.1))
-    | regA n' src' =>
-      simp only [over, Bool.and_eq_true, bne_iff_ne] at hb
-      by_cases hn : n = n'
-      · subst hn
-        obtain ⟨r, h1, h2⟩ := ih src' ha.2 hb.2
-        exact ⟨r, by simp [valEq, h1], by simp [valEq, h2]⟩
-      · exact Sym.false_of (by simp [valEq, hn, pure, Except.pure]) (by simp [valEq, Ne.symm hn, pure, Except.pure])
-    | regS n' src' a' b' c' =>
-      simp only [over, Bool.and_eq_true, bne_iff_ne] at hb
-      obtain ⟨r, h1, h2⟩ := ih src' ha.2 hb.1.1.1.2
-      refine Sym.false_of ?_ ?_
-      · by_cases hn : n = n' <;> simp [valEq, hn, h1, pure, Except.pure, bind, Except.bind]
-      · by_cases hn : n' = n <;> simp [valEq, hn, h2, pure, Except.pure, bind, Except.bind]
-    | qubit n' src' idx' =>
-      simp only [over, Bool.and_eq_true, bne_iff_ne] at hb
-      obtain ⟨r, h1, _⟩ := ih src' ha.2 hb.1.2
-      refine Sym.false_of ?_ (by simp [valEq, pure, Except.pure])
-      by_cases hn : n = n' <;> simp [valEq, hn, h1, pure, Except.pure, bind, Except.bind]
-    | _ => ff
+  | int x => intro b; cases b <;> simp [valEq, veq_symm]
+  | flt x => intro b; cases b <;> simp [valEq, veq_symm]
+  | none => intro b; cases b <;> simp [valEq]
+  | str s => intro b; cases b <;> simp [valEq, beq_symm' s]
+  | param n k => intro b; cases b <;> simp [valEq]; rw [beq_symm' n, beq_symm' k]
+  | const n v ih => intro b; cases b <;> simp [valEq]; rw [beq_symm' n, ih]
+  | qubit n src idx _ ih2 =>
+    intro b
+    cases b <;> simp [valEq]
+    rename_i n' src' idx'
+    rw [beq_symm' n, ih2]
+    cases src.name? <;> cases src'.name? <;> simp
+    rename_i s s'; rw [beq_symm' s]
+  | regF n size ih => intro b; cases b <;> simp [valEq]; rw [beq_symm' n, ih]
+  | regA n src ih => intro b; cases b <;> simp [valEq]; rw [beq_symm' n, ih]
   | regS n src st sp se ih ih1 ih2 ih3 =>
-    intro b ha hb
-    simp only [over, Bool.and_eq_true, bne_iff_ne] at ha
-    obtain ⟨⟨⟨⟨hnf, hsrc⟩, hst⟩, hsp⟩, hse⟩ := ha
-    cases b with
-    | regF n' size' =>
-      simp only [over, Bool.and_eq_true, beq_iff_eq] at hb
-      obtain ⟨rfl, _⟩ := hb
-      exact Sym.false_of (by simp [valEq, hnf, pure, Except.pure]) (valEq_regF_ne rfl (Ne.symm hnf))
-    | regA n' src' =>
-      simp only [over, Bool.and_eq_true, bne_iff_ne] at hb
-      obtain ⟨r, h1, h2⟩ := ih src' hsrc hb.2
-      refine Sym.false_of ?_ ?_
-      · by_cases hn : n = n' <;> simp [valEq, hn, h1, pure, Except.pure, bind, Except.bind]
-      · by_cases hn : n' = n <;> simp [valEq, hn, h2, pure, Except.pure, bind, Except.bind]
-    | regS n' src' a' b' c' =>
-      simp only [over, Bool.and_eq_true, bne_iff_ne] at hb
-      obtain ⟨⟨⟨⟨_, hsrc'⟩, hst'⟩, hsp'⟩, hse'⟩ := hb
-      by_cases hn : n = n'
-      · subst hn
-        obtain ⟨r0, h01, h02⟩ := ih src' hsrc hsrc'
-        obtain ⟨r1, h11, h12⟩ := ih1 a' hst hst'
-        obtain ⟨r2, h21, h22⟩ := ih2 b' hsp hsp'
-        obtain ⟨r3, h31, h32⟩ := ih3 c' hse hse'
-        refine ⟨r0 && r1 && r2 && r3, ?_, ?_⟩
-        · cases r0 <;> cases r1 <;> cases r2 <;> cases r3 <;> simp [valEq, h01, h11, h21, h31]
-        · cases r0 <;> cases r1 <;> cases r2 <;> cases r3 <;> simp [valEq, h02, h12, h22, h32]
-      · exact Sym.false_of (by simp [valEq, hn, pure, Except.pure]) (by simp [valEq, Ne.symm hn, pure, Except.pure])
-    | qubit n' src' idx' =>
-      simp only [over, Bool.and_eq_true, bne_iff_ne] at hb
-      obtain ⟨r, h1, _⟩ := ih src' hsrc hb.1.2
-      refine Sym.false_of ?_ (by simp [valEq, pure, Except.pure])
-      by_cases hn : n = n' <;> simp [valEq, hn, h1, pure, Except.pure, bind, Except.bind]
-    | _ => ff
+    intro b; cases b <;> simp [valEq]; rw [beq_symm' n, ih, ih1, ih2, ih3]
 
-/-! ## statements -/
-
-/-- two computations that both return, and return the same -/
-def Agree (x y : M Bool) : Prop := ∃ r, x = .ok r ∧ y = .ok r
-
-theorem Agree.andM {x x' y y' : M Bool} (h1 : Agree x x') (h2 : Agree y y') : Agree (andM x y) (andM x' y') := by
-  obtain ⟨r1, rfl, rfl⟩ := h1
-  obtain ⟨r2, rfl, rfl⟩ := h2
-  cases r1 <;> simp [Agree]
-
-theorem Agree.ok (r : Bool) : Agree (.ok r) (.ok r) := ⟨r, rfl, rfl⟩
-
-theorem argsEq_symm (f : String) : ∀ as bs : List (String × Val),
-    (as.all fun a => over f a.2) = true → (bs.all fun a => over f a.2) = true → Agree (argsEq as bs) (argsEq bs as)
-  | [], [], _, _ => by simp [argsEq, Agree, pure, Except.pure]
-  | a :: as, [], h, _ => by
-    simp only [List.all_cons, Bool.and_eq_true] at h
-    simp only [argsEq]
-    exact Agree.andM (valEq_symm f a.2 .none h.1 rfl) (argsEq_symm f as [] h.2 rfl)
-  | [], b :: bs, _, h => by
-    simp only [List.all_cons, Bool.and_eq_true] at h
-    simp only [argsEq]
-    exact Agree.andM (valEq_symm f .none b.2 rfl h.1) (argsEq_symm f [] bs rfl h.2)
-  | a :: as, b :: bs, h, h' => by
-    simp only [List.all_cons, Bool.and_eq_true] at h h'
-    simp only [argsEq]
-    exact Agree.andM (valEq_symm f a.2 b.2 h.1 h'.1) (argsEq_symm f as bs h.2 h'.2)
+theorem argsEq_symm : ∀ as bs : List (String × Val), argsEq as bs = argsEq bs as
+  | [], [] => rfl
+  | a :: as, [] => by simp only [argsEq]; rw [valEq_symm, argsEq_symm as []]
+  | [], b :: bs => by simp only [argsEq]; rw [valEq_symm, argsEq_symm [] bs]
+  | a :: as, b :: bs => by simp only [argsEq]; rw [valEq_symm, argsEq_symm as bs]
 
 mutual
-  def overStmt (f : String) : Stmt → Bool
-    | .gate _ _ args => args.all (fun a => over f a.2)
-    | .block _ _ it body => over f it && overStmts f body
-    | .loop c b => over f c && overStmt f b
-  def overStmts (f : String) : List Stmt → Bool
-    | [] => true
-    | s :: rest => overStmt f s && overStmts f rest
+  theorem stmtEq_symm : ∀ s t : Stmt, stmtEq s t = stmtEq t s
+    | .gate n _ args, .gate n' _ args' => by simp only [stmtEq]; rw [beq_symm' n, argsEq_symm]
+    | .gate .., .block .. => by simp [stmtEq]
+    | .gate .., .loop .. => by simp [stmtEq]
+    | .block .., .gate .. => by simp [stmtEq]
+    | .loop .., .gate .. => by simp [stmtEq]
+    | .block .., .loop .. => by simp [stmtEq]
+    | .loop .., .block .. => by simp [stmtEq]
+    | .block par sub it body, .block par' sub' it' body' => by
+      simp only [stmtEq]
+      rw [beq_symm' par, beq_symm' sub, valEq_symm it, beq_symm' body.length, stmtsEq_symm body body']
+    | .loop c b, .loop c' b' => by simp only [stmtEq]; rw [valEq_symm c, stmtEq_symm b b']
+  theorem stmtsEq_symm : ∀ as bs : List Stmt, stmtsEq as bs = stmtsEq bs as
+    | [], [] => rfl
+    | [], _ :: _ => by simp [stmtsEq]
+    | _ :: _, [] => by simp [stmtsEq]
+    | a :: as, b :: bs => by simp only [stmtsEq]; rw [stmtEq_symm a b, stmtsEq_symm as bs]
 end
 
-mutual
-  theorem stmtEq_symm (f : String) : ∀ s t : Stmt, overStmt f s = true → overStmt f t = true →
-      Agree (stmtEq s t) (stmtEq t s)
-    | .gate n _ args, .gate n' _ args', h, h' => by
-      simp only [overStmt] at h h'
-      simp only [stmtEq]
-      by_cases hn : n = n'
-      · subst hn; simpa using argsEq_symm f args args' h h'
-      · have hn' : ¬ n' = n := fun e => hn e.symm
-        simp [hn, hn', Agree, pure, Except.pure]
-    | .gate .., .block .., _, _ => by simp [stmtEq, Agree, pure, Except.pure]
-    | .gate .., .loop .., _, _ => by simp [stmtEq, Agree, pure, Except.pure]
-    | .block .., .gate .., _, _ => by simp [stmtEq, Agree, pure, Except.pure]
-    | .loop .., .gate .., _, _ => by simp [stmtEq, Agree, pure, Except.pure]
-    | .block par sub it body, .block par' sub' it' body', h, h' => by
-      simp only [overStmt, Bool.and_eq_true] at h h'
-      simp only [stmtEq]
-      by_cases hp : par = par' ∧ sub = sub'
-      · obtain ⟨rfl, rfl⟩ := hp
-        simp only [beq_self_eq_true, Bool.and_self, ↓reduceIte]
-        refine Agree.andM (valEq_symm f it it' h.1 h'.1) ?_
-        by_cases hl : body.length = body'.length
-        · simpa [hl] using stmtsEq_symm f body body' h.2 h'.2
-        · have hl' : ¬ body'.length = body.length := fun e => hl e.symm
-          simp [hl, hl', Agree, pure, Except.pure]
-      · have h1 : (par == par' && sub == sub') = false := by
-          simp only [Bool.and_eq_false_imp, beq_iff_eq, beq_eq_false_iff_ne]
-          intro e1 e2; exact hp ⟨e1, e2⟩
-        have h2 : (par' == par && sub' == sub) = false := by
-          simp only [Bool.and_eq_false_imp, beq_iff_eq, beq_eq_false_iff_ne]
-          intro e1 e2; exact hp ⟨e1.symm, e2.symm⟩
-        simp [h1, h2, Agree, pure, Except.pure]
-    | .block par sub it body, .loop c b, h, h' => by
-      simp only [overStmt, Bool.and_eq_true] at h h'
-      obtain ⟨r, _, h2⟩ := valEq_symm f it c h.1 h'.1
-      simp [stmtEq, h2, Agree, pure, Except.pure, bind, Except.bind]
-    | .loop c b, .block par sub it body, h, h' => by
-      simp only [overStmt, Bool.and_eq_true] at h h'
-      obtain ⟨r, h1, _⟩ := valEq_symm f c it h.1 h'.1
-      simp [stmtEq, h1, Agree, pure, Except.pure, bind, Except.bind]
-    | .loop c b, .loop c' b', h, h' => by
-      simp only [overStmt, Bool.and_eq_true] at h h'
-      simp only [stmtEq]
-      exact Agree.andM (valEq_symm f c c' h.1 h'.1) (stmtEq_symm f b b' h.2 h'.2)
-  theorem stmtsEq_symm (f : String) : ∀ as bs : List Stmt, overStmts f as = true → overStmts f bs = true →
-      Agree (stmtsEq as bs) (stmtsEq bs as)
-    | [], [], _, _ => by simp [stmtsEq, Agree, pure, Except.pure]
-    | [], _ :: _, _, _ => by simp [stmtsEq, Agree, pure, Except.pure]
-    | _ :: _, [], _, _ => by simp [stmtsEq, Agree, pure, Except.pure]
-    | a :: as, b :: bs, h, h' => by
-      simp only [overStmts, Bool.and_eq_true] at h h'
-      simp only [stmtsEq]
-      exact Agree.andM (stmtEq_symm f a b h.1 h'.1) (stmtsEq_symm f as bs h.2 h'.2)
-end
+theorem paramsEq_symm (a b : List (String × Kind)) : paramsEq a b = paramsEq b a := beq_symm' a b
+
+theorem macroEq_symm (a b : Macro) : macroEq a b = macroEq b a := by
+  unfold macroEq; rw [beq_symm' a.name, paramsEq_symm, stmtEq_symm]
+
+theorem gateDefEq_symm (a b : GateDef) : gateDefEq a b = gateDefEq b a := by
+  unfold gateDefEq; rw [beq_symm' a.name, paramsEq_symm]
+
+theorem listEqB_symm {α} (eq : α → α → Bool) (h : ∀ x y, eq x y = eq y x) :
+    ∀ a b : List α, listEqB eq a b = listEqB eq b a
+  | [], [] => rfl
+  | [], _ :: _ => rfl
+  | _ :: _, [] => rfl
+  | x :: xs, y :: ys => by simp [listEqB, h x y, listEqB_symm eq h xs ys]
 
 /-! ## dictionaries -/
-
-theorem key_inj_of_nodup {α} (key : α → Option String) : ∀ (b : List α), (b.map key).Nodup →
-    ∀ y ∈ b, ∀ y' ∈ b, key y = key y' → y = y'
-  | [], _, y, hy, _, _, _ => by simp at hy
-  | z :: zs, hnd, y, hy, y', hy', hk => by
-    simp only [List.map_cons, List.nodup_cons] at hnd
-    rcases List.mem_cons.mp hy with rfl | hy1 <;> rcases List.mem_cons.mp hy' with rfl | hy2
-    · rfl
-    · exact absurd (hk ▸ List.mem_map_of_mem hy2) hnd.1
-    · exact absurd (hk ▸ List.mem_map_of_mem hy1) hnd.1
-    · exact key_inj_of_nodup key zs hnd.2 y hy1 y' hy2 hk
-
-/-- what the loop of `dict.__eq__` computes when no element comparison raises -/
-theorem dictEq_go_spec {α} (key : α → Option String) (eq : α → α → M Bool) (b : List α)
-    (hnd : (b.map key).Nodup) :
-    ∀ a : List α, (∀ x ∈ a, ∀ y ∈ b, ∃ r, eq x y = .ok r) →
-      ∃ r, dictEq.go key eq b a = .ok r ∧
-        (r = true ↔ ∀ x ∈ a, ∃ y ∈ b, key y = key x ∧ eq x y = .ok true)
-  | [], _ => ⟨true, rfl, by simp⟩
-  | x :: xs, hok => by
-    obtain ⟨r, hr, hspec⟩ := dictEq_go_spec key eq b hnd xs (fun x' hx' => hok x' (by simp [hx']))
-    cases hf : b.find? (fun y => key y == key x) with
-    | none =>
-      refine ⟨false, by simp [dictEq.go, hf, pure, Except.pure], ?_⟩
-      simp only [Bool.false_eq_true, false_iff]
-      intro hall
-      obtain ⟨y, hy, hk, _⟩ := hall x (by simp)
-      exact absurd (by simpa using hk) (by simpa using List.find?_eq_none.mp hf y hy)
-    | some y =>
-      have hy : y ∈ b := List.mem_of_find?_eq_some hf
-      have hky : key y = key x := by simpa using List.find?_some hf
-      obtain ⟨r0, hr0⟩ := hok x (by simp) y hy
-      refine ⟨r0 && r, by cases r0 <;> simp [dictEq.go, hf, hr0, hr], ?_⟩
-      simp only [Bool.and_eq_true, List.mem_cons, forall_eq_or_imp]
-      constructor
-      · rintro ⟨rfl, hr'⟩
-        exact ⟨⟨y, hy, hky, hr0⟩, hspec.mp hr'⟩
-      · rintro ⟨⟨y', hy', hk', he'⟩, hrest⟩
-        have : y' = y := key_inj_of_nodup key b hnd y' hy' y hy (hk'.trans hky.symm)
-        subst this
-        exact ⟨by rw [hr0] at he'; exact Except.ok.inj he', hspec.mpr hrest⟩
 
 theorem keys_subset_symm {α} (key : α → Option String) (a b : List α) (hnda : (a.map key).Nodup)
     (hlen : a.length = b.length) (hsub : ∀ x ∈ a, ∃ y ∈ b, key y = key x) :
@@ -356,163 +96,33 @@ theorem keys_subset_symm {α} (key : α → Option String) (a b : List α) (hnda
   obtain ⟨x, hx, hk⟩ := List.mem_map.mp this
   exact ⟨x, hx, hk⟩
 
-theorem dictEq_symm {α} (key : α → Option String) (eq : α → α → M Bool) (a b : List α)
-    (hnda : (a.map key).Nodup) (hndb : (b.map key).Nodup)
-    (hag : ∀ x ∈ a, ∀ y ∈ b, Agree (eq x y) (eq y x)) :
-    Agree (dictEq key eq a b) (dictEq key eq b a) := by
-  by_cases hlen : a.length = b.length
-  · have hlen' : b.length = a.length := hlen.symm
-    have e1 : ¬ (a.length != b.length) = true := by simpa using hlen
-    have e2 : ¬ (b.length != a.length) = true := by simpa using hlen'
-    unfold dictEq
-    rw [if_neg e1, if_neg e2]
-    obtain ⟨r1, h1, s1⟩ := dictEq_go_spec key eq b hndb a (fun x hx y hy => by
-      obtain ⟨r, h, _⟩ := hag x hx y hy; exact ⟨r, h⟩)
-    obtain ⟨r2, h2, s2⟩ := dictEq_go_spec key eq a hnda b (fun y hy x hx => by
-      obtain ⟨r, _, h⟩ := hag x hx y hy; exact ⟨r, h⟩)
-    have flip : ∀ (a b : List α), (a.map key).Nodup → (b.map key).Nodup → a.length = b.length →
-        (∀ x ∈ a, ∀ y ∈ b, Agree (eq x y) (eq y x)) →
-        (∀ x ∈ a, ∃ y ∈ b, key y = key x ∧ eq x y = .ok true) →
-        (∀ y ∈ b, ∃ x ∈ a, key x = key y ∧ eq y x = .ok true) := by
-      intro a b hnda hndb hlen hag hall y hy
-      obtain ⟨x, hx, hk⟩ := keys_subset_symm key a b hnda hlen
-        (fun x hx => by obtain ⟨y, hy, hk, _⟩ := hall x hx; exact ⟨y, hy, hk⟩) y hy
-      obtain ⟨y', hy', hk', he⟩ := hall x hx
-      have : y' = y := key_inj_of_nodup key b hndb y' hy' y hy (hk'.trans hk)
-      subst this
-      obtain ⟨r, e1, e2⟩ := hag x hx y' hy
-      rw [e1] at he
-      exact ⟨x, hx, hk, by rw [e2]; exact he⟩
-    have hiff : r1 = true ↔ r2 = true := by
-      rw [s1, s2]
-      constructor
-      · exact flip a b hnda hndb hlen hag
-      · exact flip b a hndb hnda hlen' (fun y hy x hx => by
-          obtain ⟨r, e1, e2⟩ := hag x hx y hy; exact ⟨r, e2, e1⟩)
-    refine ⟨r1, h1, ?_⟩
-    rw [h2]
-    cases r1 <;> cases r2 <;> simp_all
-  · have hlen' : ¬ b.length = a.length := fun e => hlen e.symm
-    have e1 : (a.length != b.length) = true := by simpa using hlen
-    have e2 : (b.length != a.length) = true := by simpa using hlen'
-    unfold dictEq
-    rw [if_pos e1, if_pos e2]
-    exact Agree.ok false
-
-/-! ## circuits -/
-
-/-- A circuit over one fundamental register `f`, as the parser builds it (`parse_jaqal_string` rejects a second
-`register` statement): dictionaries have distinct keys; every fundamental register mentioned anywhere is `f`
-and nothing else is called `f`; parameters in value positions are untyped; constants are numeric. -/
-structure OverC (f : String) (c : Circuit) : Prop where
-  constKeys : (c.constants.map Val.name?).Nodup
-  regKeys : (c.registers.map Val.name?).Nodup
-  macroKeys : (c.macros.map (fun m => some m.name)).Nodup
-  nativeKeys : (c.natives.map (fun g => some g.name)).Nodup
-  consts : ∀ v ∈ c.constants, over f v = true
-  regs : ∀ v ∈ c.registers, over f v = true
-  macros : ∀ m ∈ c.macros, overStmt f m.body = true
-  body : overStmt f c.body = true
-  regsNamed : ∀ n, Val.regA n .none ∉ c.registers
-
-theorem Agree.eq {x y : M Bool} (h : Agree x y) : x = y := by
-  obtain ⟨r, rfl, rfl⟩ := h; rfl
-
-theorem listEqB_symm {α} (eq : α → α → Bool) (h : ∀ x y, eq x y = eq y x) :
-    ∀ a b : List α, listEqB eq a b = listEqB eq b a
-  | [], [] => rfl
-  | [], _ :: _ => rfl
-  | _ :: _, [] => rfl
-  | x :: xs, y :: ys => by simp [listEqB, h x y, listEqB_symm eq h xs ys]
-
-theorem paramsEq_symm (a b : List (String × Kind)) : paramsEq a b = paramsEq b a := beq_symm' a b
-
-theorem macroEq_symm (f : String) (a b : Macro) (ha : overStmt f a.body = true) (hb : overStmt f b.body = true) :
-    Agree (macroEq a b) (macroEq b a) := by
-  unfold macroEq
-  rw [beq_symm' b.name a.name, paramsEq_symm b.params a.params]
-  split
-  · exact stmtEq_symm f a.body b.body ha hb
-  · exact Agree.ok false
-
-theorem circuitEq_symm (f : String) (a b : Circuit) (ha : OverC f a) (hb : OverC f b) :
-    circuitEq a b = circuitEq b a := by
-  apply Agree.eq
-  unfold circuitEq
-  refine Agree.andM (dictEq_symm _ _ _ _ ha.constKeys hb.constKeys
-    (fun x hx y hy => valEq_symm f x y (ha.consts x hx) (hb.consts y hy))) ?_
-  refine Agree.andM (dictEq_symm _ _ _ _ ha.macroKeys hb.macroKeys
-    (fun x hx y hy => macroEq_symm f x y (ha.macros x hx) (hb.macros y hy))) ?_
-  refine Agree.andM (dictEq_symm _ _ _ _ ha.nativeKeys hb.nativeKeys
-    (fun x _ y _ => by
-      have : gateDefEq x y = gateDefEq y x := by
-        unfold gateDefEq; rw [beq_symm' x.name, paramsEq_symm]
-      simp [this, Agree, pure, Except.pure])) ?_
-  refine Agree.andM (dictEq_symm _ _ _ _ ha.regKeys hb.regKeys
-    (fun x hx y hy => valEq_symm f x y (ha.regs x hx) (hb.regs y hy))) ?_
-  refine Agree.andM (stmtEq_symm f a.body b.body ha.body hb.body) ?_
-  rw [listEqB_symm usepulsesEq (fun x y => by unfold usepulsesEq; rw [beq_symm' x.1, beq_symm' x.2])]
-  exact Agree.ok _
-
-/-- `dict.__eq__` returned `True`: every entry of `a` has an equal entry under the same key in `b` -/
-theorem dictEq_go_true {α} (key : α → Option String) (eq : α → α → M Bool) (b : List α) :
-    ∀ a : List α, dictEq.go key eq b a = .ok true → ∀ x ∈ a, ∃ y ∈ b, key y = key x ∧ eq x y = .ok true
-  | [], _, x, hx => by simp at hx
-  | z :: zs, h, x, hx => by
-    simp only [dictEq.go] at h
-    cases hf : b.find? (fun y => key y == key z) with
-    | none => simp [hf, pure, Except.pure] at h
-    | some y =>
-      rw [hf] at h
-      obtain ⟨h1, h2⟩ := andM_eq_true.mp h
-      rcases List.mem_cons.mp hx with rfl | hx'
-      · exact ⟨y, List.mem_of_find?_eq_some hf, by simpa using List.find?_some hf, h1⟩
-      · exact dictEq_go_true key eq b zs h2 x hx'
-
-theorem dictEq_true {α} {key : α → Option String} {eq : α → α → M Bool} {a b : List α}
-    (h : dictEq key eq a b = .ok true) :
-    a.length = b.length ∧ ∀ x ∈ a, ∃ y ∈ b, key y = key x ∧ eq x y = .ok true := by
-  unfold dictEq at h
-  by_cases hl : a.length = b.length
-  · have e1 : ¬ (a.length != b.length) = true := by simpa using hl
-    rw [if_neg e1] at h
-    exact ⟨hl, dictEq_go_true key eq b a h⟩
-  · have e1 : (a.length != b.length) = true := by simpa using hl
-    rw [if_pos e1] at h
-    simp [pure, Except.pure] at h
-
-theorem circuitEq_true_regs {a b : Circuit} (h : circuitEq a b = .ok true) :
-    dictEq Val.name? valEq a.registers b.registers = .ok true := by
-  unfold circuitEq at h
-  exact (andM_eq_true.mp (andM_eq_true.mp (andM_eq_true.mp (andM_eq_true.mp h).2).2).2).1
-
-/-- circuits over DIFFERENT fundamental registers never compare equal (in either order: swap the roles) -/
-theorem circuitEq_ne_of_fundamental_ne {f f' : String} {a b : Circuit} (ha : OverC f a) (hb : OverC f' b)
-    (hne : f ≠ f') {s' : Val} (hfb : Val.regF f' s' ∈ b.registers) :
-    circuitEq a b ≠ .ok true := by
-  intro h
-  obtain ⟨hlen, hall⟩ := dictEq_true (circuitEq_true_regs h)
-  obtain ⟨x, hx, hk⟩ := keys_subset_symm Val.name? a.registers b.registers ha.regKeys hlen
-    (fun x hx => by obtain ⟨y, hy, hk, _⟩ := hall x hx; exact ⟨y, hy, hk⟩) _ hfb
+/-- `dict.__eq__` on two dictionaries: `True` one way implies `True` the other way -/
+theorem dictEq_flip {α} (key : α → Option String) (eq : α → α → Bool) (heq : ∀ x y, eq x y = eq y x)
+    (a b : List α) (hnda : (a.map key).Nodup) (hndb : (b.map key).Nodup)
+    (h : dictEq key eq a b = true) : dictEq key eq b a = true := by
+  obtain ⟨hlen, hall⟩ := dictEq_true h
+  refine dictEq_of hnda hlen.symm (fun y hy => ?_)
+  obtain ⟨x, hx, hk⟩ := keys_subset_symm key a b hnda hlen
+    (fun x hx => by obtain ⟨y, hy, hk, _⟩ := hall x hx; exact ⟨y, hy, hk⟩) y hy
   obtain ⟨y', hy', hk', he⟩ := hall x hx
-  have : y' = Val.regF f' s' := key_inj_of_nodup Val.name? b.registers hb.regKeys y' hy' _ hfb (hk'.trans hk)
+  have : y' = y := key_inj_of_nodup key b hndb y' hy' y hy (hk'.trans hk)
   subst this
-  have hov := ha.regs x hx
-  -- `x` is called `f'`, so it is not the fundamental register of `a`; nothing else equals a fundamental register
-  cases x with
-  | regF n sz =>
-    simp only [over, Bool.and_eq_true, beq_iff_eq] at hov
-    simp only [Val.name?, Option.some.injEq] at hk
-    exact hne (hov.1 ▸ hk)
-  | regA n src =>
-    simp only [Val.name?, Option.some.injEq] at hk
-    subst hk
-    have hsrc : src ≠ .none := fun e => ha.regsNamed n (e ▸ hx)
-    simp only [valEq, beq_self_eq_true, ↓reduceIte] at he
-    cases src <;> first | exact hsrc rfl | simp [valEq, Val.name?, pure, Except.pure] at he
-  | regS n src a b c =>
-    by_cases hn : n = f' <;> simp [valEq, hn, pure, Except.pure, bind, Except.bind] at he
-    cases hv : valEq src Val.none <;> simp [hv] at he
-  | _ => simp [valEq, pure, Except.pure] at he
+  exact ⟨x, hx, hk, by rw [heq]; exact he⟩
+
+theorem dictEq_symm {α} (key : α → Option String) (eq : α → α → Bool) (heq : ∀ x y, eq x y = eq y x)
+    (a b : List α) (hnda : (a.map key).Nodup) (hndb : (b.map key).Nodup) :
+    dictEq key eq a b = dictEq key eq b a := by
+  cases h1 : dictEq key eq a b <;> cases h2 : dictEq key eq b a <;> try rfl
+  · rw [dictEq_flip key eq heq b a hndb hnda h2] at h1; exact h1.symm
+  · rw [dictEq_flip key eq heq a b hnda hndb h1] at h2; exact h2
+
+theorem circuitEq_symm (a b : Circuit) (ha : DictKeys a) (hb : DictKeys b) : circuitEq a b = circuitEq b a := by
+  unfold circuitEq
+  rw [dictEq_symm _ _ valEq_symm _ _ ha.constKeys hb.constKeys,
+    dictEq_symm _ _ macroEq_symm _ _ ha.macroKeys hb.macroKeys,
+    dictEq_symm _ _ gateDefEq_symm _ _ ha.nativeKeys hb.nativeKeys,
+    dictEq_symm _ _ valEq_symm _ _ ha.regKeys hb.regKeys,
+    stmtEq_symm a.body b.body,
+    listEqB_symm usepulsesEq (fun x y => by unfold usepulsesEq; rw [beq_symm' x.1, beq_symm' x.2])]
 
 end Jaqal.PyEq
